@@ -594,16 +594,46 @@ fn expand_defgate_sequences(req: &Value) -> Value {
 }
 
 /// type_check verdict for each program text: "Ok" or the error variant name.
+/// complex conjugate of every number literal of an expression (negative imaginary parts cannot be written in Quil text)
+fn conj_expr(e: &quil_rs::expression::Expression) -> quil_rs::expression::Expression {
+    use internment::ArcIntern;
+    use quil_rs::expression::*;
+    match e {
+        Expression::Number(c) => Expression::Number(c.conj()),
+        Expression::FunctionCall(f) => Expression::FunctionCall(FunctionCallExpression { function: f.function, expression: ArcIntern::new(conj_expr(&f.expression)) }),
+        Expression::Prefix(p) => Expression::Prefix(PrefixExpression { operator: p.operator, expression: ArcIntern::new(conj_expr(&p.expression)) }),
+        Expression::Infix(i) => Expression::Infix(InfixExpression { left: ArcIntern::new(conj_expr(&i.left)), operator: i.operator, right: ArcIntern::new(conj_expr(&i.right)) }),
+        other => other.clone(),
+    }
+}
+
 fn type_check(req: &Value) -> Value {
     let mut out = vec![];
+    let conj = req["conj"].as_bool().unwrap_or(false);
     for t in req["programs"].as_array().unwrap() {
-        let program = match Program::from_str(t.as_str().unwrap()) {
+        let mut program = match Program::from_str(t.as_str().unwrap()) {
             Ok(p) => p,
             Err(e) => {
                 out.push(json!({"input_error": format!("{e:?}")}));
                 continue;
             }
         };
+        if conj {
+            // rebuild the program with the frame-update expressions conjugated (API-only values)
+            let ins: Vec<Instruction> = program
+                .to_instructions()
+                .into_iter()
+                .map(|i| match i {
+                    Instruction::SetPhase(mut x) => { x.phase = conj_expr(&x.phase); Instruction::SetPhase(x) }
+                    Instruction::SetFrequency(mut x) => { x.frequency = conj_expr(&x.frequency); Instruction::SetFrequency(x) }
+                    Instruction::SetScale(mut x) => { x.scale = conj_expr(&x.scale); Instruction::SetScale(x) }
+                    Instruction::ShiftPhase(mut x) => { x.phase = conj_expr(&x.phase); Instruction::ShiftPhase(x) }
+                    Instruction::ShiftFrequency(mut x) => { x.frequency = conj_expr(&x.frequency); Instruction::ShiftFrequency(x) }
+                    other => other,
+                })
+                .collect();
+            program = Program::from_instructions(ins);
+        }
         match quil_rs::program::type_check::type_check(&program) {
             Ok(()) => out.push(json!("Ok")),
             Err(e) => {
